@@ -103,10 +103,15 @@ func scenC01(w *vsim.World, spec *vsim.Spec) {
 		midKind  int // 0 corrupt a copy now, 1 EIO on this step
 		midVol   int
 		midState int
+		wrong    int // kind 3: 0 other bytes, 1 the (damaged) bytes stored under H on some volume, 2 one bit flipped, 3 last byte missing, 4 empty
+		wrongVol int
 	}
 	var plan []req
 	for len(plan) < 10 && (len(plan) == 0 || w.Choose("more", 5) != 0) {
 		r := req{kind: w.Choose("req-kind", 4), blk: w.Choose("req-blk", nblk)}
+		if r.kind == 3 {
+			r.wrong, r.wrongVol = w.Choose("wrong-body", 5), w.Choose("wrong-body-vol", len(vols))
+		}
 		if w.Chance("mid-request-fault", 250) {
 			r.midStep = 1 + w.Choose("mid-step", 12)
 			r.midKind = w.Choose("mid-kind", 2)
@@ -211,6 +216,30 @@ func scenC01(w *vsim.World, spec *vsim.Spec) {
 				body := blocks[bi]
 				if r.kind == 3 {
 					body = append([]byte("wrong body "), blocks[bi]...)
+					switch r.wrong {
+					case 1: // exactly what a volume holds under that name now, when that is not the block
+						for i := range vols {
+							vs := vols[(r.wrongVol+i)%len(vols)]
+							if b, err := os.ReadFile(blockPathIn(vs.root, h)); err == nil && md5hex(b) != h {
+								body = b
+								w.Probe("put-of-the-damaged-bytes-stored-under-the-hash")
+								break
+							}
+						}
+					case 2:
+						if len(blocks[bi]) > 0 {
+							body = append([]byte(nil), blocks[bi]...)
+							body[len(body)/2] ^= 4
+						}
+					case 3:
+						if len(blocks[bi]) > 1 {
+							body = append([]byte(nil), blocks[bi][:len(blocks[bi])-1]...)
+						}
+					case 4:
+						if len(blocks[bi]) > 0 {
+							body = []byte{}
+						}
+					}
 				}
 				resp := node.do("PUT", "/"+h, "usertoken", body)
 				cur = -1
